@@ -817,6 +817,7 @@ fn direct_decoder(dec: &str, a: &[String]) -> String {
                         Err(e) => if e.to_string().contains("beyond end") { "err beyond_end".into() } else if e.to_string().contains("overflow") { "err overflow".into() } else { "err io".into() },
                     },
                     Err(MemvidError::Io { .. }) => "err io".into(),
+                    Err(MemvidError::ChecksumMismatch { .. }) => "err checksum".into(),
                     Err(e) => format!("err reader:{}", errkind(&e)),
                 },
                 Err(e) => format!("err open:{}", errkind(&e)),
@@ -1444,9 +1445,10 @@ fn gen_blob(cx: &mut Cx, rng: &mut Rng, seed: &[u8], lay: &Layout) {
         let bytes = FileCase { base: "x".into(), ops, label: String::new() }.apply(&seeds);
         let p = cx.tmp.join(format!("blob{i}.mv2"));
         std::fs::write(&p, &bytes).expect("write");
-        let model = cx.ask(&format!("blob {start} {len} {target}"));
-        // blob_reader itself seeks to `start` first: beyond off_t that is the I/O error, before any BlobReader exists
-        let model = if start >= (1 << 63) { model.map(|_| "err io".to_string()) } else { model };
+        // the stored checksum of the frame is left alone: it matches only the original byte range
+        let orig = &lay.toc.frames[idx];
+        let ck_ok = start == orig.payload_offset && len == orig.payload_length;
+        let model = cx.ask(&format!("blob {} {start} {len} {target} {}", bytes.len(), ck_ok as u8));
         let args = vec![p.display().to_string(), s(idx as u64), s(target)];
         let t = cx.tmpdir();
         let imp = run_dec_child("blob", &args, &t);
